@@ -258,6 +258,24 @@ class Check(PropertyCheck):
             if hash(x) != hash(z):
                 res.append(("hash", "equal operations of a subclass hash differently"))
 
+            # a user subclass of ScheduledOperation that declares slots of its own (a label): operation, start time and machine are
+            # still what equality is about
+            class LabelledScheduledOperation(jsl.ScheduledOperation):
+                __slots__ = ("label",)
+
+                def __init__(self, operation, start_time, machine_id, label):
+                    super().__init__(operation, start_time, machine_id)
+                    self.label = label
+            base_op = jsl.Operation([0, 1], 4)
+            other_op = jsl.Operation([0, 1], 6)
+            l0 = LabelledScheduledOperation(base_op, 3, 0, "a")
+            for what, cand, want in [("same content", LabelledScheduledOperation(base_op, 3, 0, "a"), True),
+                                     ("another start time", LabelledScheduledOperation(base_op, 3 + r.randint(1, 5), 0, "a"), False),
+                                     ("another machine", LabelledScheduledOperation(base_op, 3, 1, "a"), False),
+                                     ("another operation", LabelledScheduledOperation(other_op, 3, 0, "a"), False)]:
+                if (l0 == cand) != want or (cand == l0) != want:
+                    res.append(("eq-subclass", f"scheduled operations of a subclass with its own __slots__ ({what}): == is {l0 == cand}, "
+                                f"content equality is {want}"))
             # a subclass WITHOUT __slots__ that sets an optional attribute only when it is given: == says the same both ways
             class OptOperation(jsl.Operation):
                 def __init__(self, machines, duration, due_date=None, note=None):
